@@ -124,6 +124,18 @@ pub fn run(env: &Env) -> Report {
                         }
                     }
                 }
+                // very long words (39 … 60 letters) bare and inside punctuation: nothing about the property changes with the length
+                for n in [39usize, 40, 41, 42, 60] {
+                    let word: String = "bangladeshamarsonarbangla".chars().cycle().take(n).collect();
+                    for (l, r) in [("", ""), ("(", ")."), ("\"", "")] {
+                        let txt = format!("{}{}{}", l, word, r);
+                        s.clear_events();
+                        let o = s.type_text(&mut t, &txt);
+                        check_h(env, &mut rep, opts, &txt, &o, Some((l, &word, r)), &s.events);
+                        rep.count("long-word");
+                        s.finish(&mut t);
+                    }
+                }
                 let n = if env.quick() { 1200 } else { 5000 };
                 let n = if opts.phonetic_suggestion { n / 8 } else { n };
                 for _ in 0..n {
